@@ -297,7 +297,7 @@ func init() {
 		} else if os.Getenv("VERIF_LAG") == "" {
 			cfg3 := cfg
 			cfg3.D, cfg3.Lag = 0, 1
-			cfg3.Deadline = time.Now().Add(40 * time.Second)
+			cfg3.Deadline = explore.Deadline(40*time.Second, time.Minute)
 			g3 := explore.Search(rep, cfg3, seeds)
 			g3.Analyse()
 			b3, e3 := g3.CheckConvergence(rep)
